@@ -252,6 +252,7 @@ structure Hist where
   ceaseWithOpen : List String := []
   waits : List WaitRec := []
   startAll : String := ""            -- returned | blocked | error …
+  startPos : Option Nat := none      -- position of `op startall`
   answered : Bool := false
   noquiesce : Bool := false
   expiredBefore : Bool := false      -- some wait has returned false so far
@@ -262,6 +263,7 @@ def Hist.line (h : Hist) (pos : Nat) (ws : List String) : Hist :=
   | ["prog", "starts", n, "shape", _] => { h with n := n.toNat?.getD 0 }
   | "op" :: "answer" :: node :: occ :: _ => { h with openTasks := h.openTasks.erase s!"{node}#{occ}" }
   | "op" :: "answered" :: _ => { h with answered := true }
+  | "op" :: "startall" :: _ => { h with startPos := if h.startPos.isSome then h.startPos else some pos }
   | "op" :: "wait" :: id :: phase :: tmo :: _ =>
     { h with waits := h.waits ++ [{ id := id.toNat?.getD 0, phase, tmo, opPos := pos, ceaseBeforeOp := !h.ceasePos.isEmpty }] }
   | "op" :: _ => h
@@ -312,7 +314,8 @@ def check (params lines : List String) : CaseResult := Id.run do
   -- ---- lock-step
   -- shape `bnd` (boundary listener flows) is outside the completion model's programs: judged by the predicate only
   -- (so is shape `subfork`: tokens inside an embedded sub-process are counted by the sub-process's own wait group)
-  let pinned := (scen != "free" || !manyMonitors) && shape != "bnd" && shape != "subfork"
+  -- (and scenario `prewait`: a wait issued before StartAll is not an instruction of the completion model's programs)
+  let pinned := (scen != "free" || !manyMonitors) && shape != "bnd" && shape != "subfork" && scen != "prewait"
   let mut explainedByLateSub := false
   if pinned then
     let ls := replay P scen 0 toks
@@ -341,6 +344,10 @@ def check (params lines : List String) : CaseResult := Id.run do
   for w in h.waits do
     if w.ret == some 1 && (w.pending > 0 || h.ceasePos.isEmpty) then
       r := add r s!"wait_true_before_cease: wait {w.id} returned true with {w.pending} task requests unanswered, cease traces in the run: {h.ceasePos.length}"
+  -- a wait issued BEFORE the instance is started: no start event has fired, it must not report completion
+  for w in h.waits do
+    if w.ret == some 1 && (match h.startPos with | some sp => w.opPos < sp | none => false) then
+      r := add r s!"wait_true_before_start: wait {w.id}, issued before StartAll, returned true (no start event has fired)"
   let due := h.answered && !h.noquiesce
   if due && h.startAll == "blocked" then
     r := add r (if manyMonitors then s!"startall_blocks_two_starts: StartAll has not returned at quiescence ({n} start events, shape {shape})"
